@@ -252,7 +252,10 @@ func (c *Ctx) loopsExitOnlyAtHeader(P, rule, fnName, why string) Obligation {
 			if b == li.Header {
 				continue
 			}
-			if _, isRet := b.Instrs[len(b.Instrs)-1].(*ssa.Return); isRet {
+			if r, isRet := b.Instrs[len(b.Instrs)-1].(*ssa.Return); isRet {
+				if !c.E1.returnIsSuccess(r, nil) {
+					continue
+				}
 				o.fail(c.A.Pos(b.Instrs[len(b.Instrs)-1].Pos()), "a return inside the loop headed at block b%d ends the sweep early", li.Header.Index)
 				continue
 			}
@@ -260,11 +263,15 @@ func (c *Ctx) loopsExitOnlyAtHeader(P, rule, fnName, why string) Obligation {
 				if li.Blocks[s] {
 					continue
 				}
-				// leaving the loop from a body block: allowed only into a block that panics
+				// leaving the loop from a body block: allowed only into a block that panics, or onto a path
+				// that can only end in a failure return (the whole call fails; nothing is silently skipped)
 				if len(s.Instrs) > 0 {
 					if _, isPanic := s.Instrs[len(s.Instrs)-1].(*ssa.Panic); isPanic {
 						continue
 					}
+				}
+				if c.onlyFailureReturnsFrom(s, li) {
+					continue
 				}
 				pos := c.A.Pos(b.Instrs[len(b.Instrs)-1].Pos())
 				if pos == "-" {
@@ -275,4 +282,34 @@ func (c *Ctx) loopsExitOnlyAtHeader(P, rule, fnName, why string) Obligation {
 		}
 	}
 	return *o
+}
+
+// onlyFailureReturnsFrom: every return reachable from b without re-entering the loop is a failure return
+// (and there is at least one).
+func (c *Ctx) onlyFailureReturnsFrom(b *ssa.BasicBlock, li *loopInfo) bool {
+	seen := map[*ssa.BasicBlock]bool{}
+	work := []*ssa.BasicBlock{b}
+	n := 0
+	for len(work) > 0 {
+		x := work[len(work)-1]
+		work = work[:len(work)-1]
+		if seen[x] || li.Blocks[x] {
+			continue
+		}
+		seen[x] = true
+		if len(x.Instrs) == 0 {
+			continue
+		}
+		switch t := x.Instrs[len(x.Instrs)-1].(type) {
+		case *ssa.Return:
+			n++
+			if len(t.Results) == 0 || c.E1.returnIsSuccess(t, nil) {
+				return false
+			}
+		case *ssa.Panic:
+		default:
+			work = append(work, x.Succs...)
+		}
+	}
+	return n > 0
 }
